@@ -21,7 +21,10 @@ Open Scope Z_scope.
    what it draws itself for the oracle value r (r mod bound, which differs from r) -- so
    the outputs are equal iff the code's delay is inside the range.  The k calls before
    reset() are not observed (oracle 0).
-   Domain of the model: Base, Factor, k, n >= 0; anything else is a decode error.
+   Domain (what the property quantifies over): Base, Factor, Cap positive after the
+   defaults (a 0 field is unset and takes its default) and attempt numbers >= 0.  For
+   every other input both sides answer the constant (9): the check only requires that
+   the harness survives such a call, not what the code does with it.
 
    observation of one call: (0 ns) the time.Duration in ns | (1) no delay: the random draw
    had an empty range (non-positive Cap; the code panics in rand.Intn).
@@ -65,15 +68,20 @@ Definition dec_input (x : sx) : option c19_input :=
   | SL [SZ mode; nj; SZ ba; SZ f; SZ c; SZ k; SZ n; rs] =>
       do j <- as_b nj;
       do l <- as_list as_z rs;
-      if (0 <=? ba) && (0 <=? f) && (0 <=? k) && (0 <=? n) && (0 <=? mode) && (mode <=? 3)
+      if (0 <=? k) && ((mode =? 0) || (0 <=? n)) && (0 <=? mode) && (mode <=? 3)
          && (Z.of_nat (length l) =? (if mode =? 0 then 1 else n))
       then Some (mode, j, ba, f, c, k, n, l) else None
   | _ => None
   end.
 
+Definition out_of_domain : sx := SL [SZ 9].
+
 Definition run_typed (inp : c19_input) : sx :=
   let '(mode, nj, ba, f, c, k, n, rs) := inp in
   let b := fresh nj ba f c in
+  let b' := set_default b in
+  if negb ((0 <? base b') && (0 <? factor b') && (0 <? cap b')) || ((mode =? 0) && (n <? 0))
+  then out_of_domain else
   if mode =? 0 then
     let r := hd 0 rs in
     let o := snd (dur_for_attempt b n r) in
